@@ -33,7 +33,7 @@ def full_length(iso_exons, true_exons, delta):
         abs(true_exons[0][0] - iso_exons[0][0]) <= delta and abs(true_exons[-1][1] - iso_exons[-1][1]) <= delta
 
 
-def hard_difference(iso_exons, aligned_exons):
+def hard_difference(iso_exons, aligned_exons, end_far=400):
     """True if the aligned read differs from the isoform far beyond every tolerance."""
     r_in = introns(aligned_exons)
     i_in = introns(iso_exons)
@@ -59,7 +59,7 @@ def hard_difference(iso_exons, aligned_exons):
             return True
         if ii[0] + 100 <= rs <= ii[1] - 300 and aligned_exons[0][1] > ii[1] + 30:
             return True
-    # an end >= 400 bp outside the isoform
-    if rs <= iso_exons[0][0] - 400 or re_ >= iso_exons[-1][1] + 400:
+    # an end >= end_far (400) bp outside the isoform
+    if rs <= iso_exons[0][0] - end_far or re_ >= iso_exons[-1][1] + end_far:
         return True
     return False
